@@ -325,6 +325,48 @@ def _finalize(ctx, prog):
         return Interp(prog, assume=assume).run(f)
     r = run(True, False)
     rets = [v for v, l in r.returns if not tm.is_const(l, False)]
+    # decided by evaluation on sample tokens where the function can be
+    # evaluated (whatever the spelling of the word tests): the last token
+    # 'true' / 'false' in any case gives that value, every other token (also
+    # a non-string) toggles the current value
+    from ..lib import const_eval
+    samples = [("true", True), ("True", True), ("TRUE", True),
+               ("false", False), ("False", False), ("FALSE", False),
+               ("yes", None), ("1", None), ("", None), (1, None),
+               (0.5, None), ("none", None), ("[]", None)]
+    sampled, why_s = True, ""
+    try:
+        for tok, want_ in samples:
+            for old in (True, False):
+                for vv in ((tok,), ("zzz", tok)):
+                    env = {vals: vv, cfgk: old,
+                           tm.sub(vals, const(-1)): vv[-1],
+                           tm.sub(vals, const(0)): vv[0]}
+                    got = const_eval(r.ret, env)
+                    exp = want_ if want_ is not None else (not old)
+                    if got is not exp and sampled:
+                        sampled = False
+                        why_s = (f"values={list(vv)!r} with the current "
+                                 f"value {old} gives {got!r}, expected "
+                                 f"{exp!r}")
+        evaluated = True
+    except Exception:
+        evaluated = False
+    if evaluated:
+        ctx.ob("C18.2", f, sampled,
+               "boolean parameters stay boolean: explicit true/false (any "
+               "case) or toggle — evaluated on sample tokens" if sampled else
+               f"boolean parameters: {why_s}", key="C18.2:bool")
+        ctx.ob("C18.2", f, sampled,
+               "boolean parameters: 'false' -> False, 'true' -> True, any "
+               "other token toggles the current value" if sampled else
+               f"boolean parameters: {why_s}", key="C18.2:bool-words")
+    else:
+        _finalize_bool_shapes(ctx, f, r, rets, cfgk)
+    _finalize_rest(ctx, f, run, vals)
+
+
+def _finalize_bool_shapes(ctx, f, r, rets, cfgk):
     def bool_table(v: T):
         """{'false': False, 'true': True, ...} if v is a lookup in a literal
         word table whose values are all booleans"""
@@ -404,6 +446,9 @@ def _finalize(ctx, prog):
                f"{ {k[0]: fmt(v) if v is not None else '?' for k, v in table.items()} }"
                f" — expected false -> False, true -> True, other -> "
                f"not current", key="C18.2:bool-words")
+
+
+def _finalize_rest(ctx, f, run, vals):
     r = run(False, True)
     rets = [v for v, l in r.returns if not tm.is_const(l, False)]
     ok = bool(rets) and all(v is vals or v is T("list") for v in rets)
